@@ -42,19 +42,24 @@ ASSUMPTIONS = [
     'layouts against real NumPy',
     'key intification is decided by CrossHair on the real _intify_keys/_stringify_keys (symbolic str/int keys)',
     'every string of the tricky-string set is used in both table kinds',
+    'round 8: arrays of non-native byte order (>i4, >f8, >u2) through the base64 branch; reading a byte buffer in the opposite byte '
+    'order yields unconstrained elements in the model (every resulting claim is confirmed by the replay on real NumPy)',
 ]
 STUBS = ['base64 (bijection)', 'virtual file system']
 OUTSIDE = ['QByteArray', 'pickle', 'float formatting of symbolic reals', 'exec of symbolic text']
 WITNESS_CAP = {'quick': 40, 'thorough': 80}
 STRS = ['good', 'mua, maybe', 'a\tb', 'say "hi"', ' lead', 'x,y\t"z"']
 DTYPES = ['float64', 'float32', 'int16', 'int64', 'uint8', 'bool', 'uint64']
+SWAPPED = ['>i4', '>f8', '>u2']     # non-native byte order (round 8)
 
 
 def configs(tier):
     quick = tier == 'quick'
     out = []
-    for dt in DTYPES:
+    for dt in DTYPES + SWAPPED:
         out.append({'kind': 'json_1d', 'dtype': dt})
+    for dt in SWAPPED:
+        out.append({'kind': 'json_nd', 'rank': 2, 'dtype': dt})
     for rank in (0, 2, 3):
         for dt in (DTYPES[:4] if quick else DTYPES):
             out.append({'kind': 'json_nd', 'rank': rank, 'dtype': dt})
@@ -136,7 +141,7 @@ def run_config(cfg, e):
                     return SymReal(z3.ToReal(core.term_of(v)))
                 return v
             short = n <= 10
-            e.case_builder = lambda ev: {'kind': kind, 'dtype': dt.name, 'n': n, 'vals': ev(vals)}
+            e.case_builder = lambda ev: {'kind': kind, 'dtype': dt.str, 'n': n, 'vals': ev(vals)}
             if short:
                 nn = int(n)
                 arr = snp.asarray(np.array([(3 * i) % 7 for i in range(nn)]).astype(dt))
@@ -178,7 +183,7 @@ def run_config(cfg, e):
             else:
                 raw = vals
             arr = snp.ndarray(snp._fromlist(raw, shape), dt)
-            e.case_builder = lambda ev: {'kind': kind, 'dtype': dt.name, 'shape': list(shape), 'vals': ev(vals)}
+            e.case_builder = lambda ev: {'kind': kind, 'dtype': dt.str, 'shape': list(shape), 'vals': ev(vals)}
             try:
                 misc.save_json(path, {'arr': arr, 'n': 2})
                 back = misc.load_json(path)
